@@ -2,7 +2,7 @@
 Used by C02, C05, C06, C11, C17, C18."""
 import re
 
-from .core import (Prov, bool_cond_edges, callee_is, constructions, discr_cond_edges, has_origin, origin_strs,
+from .core import (Prov, bool_cond_edges, callee_is, constructions, discr_cond_edges, has_origin, origin_strs, selection_blocks,
                    result_switches, root_local, sites_star, first_switches)
 
 TOKEN_ITEM = "fastrace::collector::CollectTokenItem"
@@ -187,18 +187,31 @@ def rule_span_records(ctx, facts, rule):
         ctx.fail(rule, "postprocess_span_collection", "-", "anchor exists", "anchor lost", extra="pp")
         return
     calls = [b for b in pp.calls(lambda t: t["callee"] in AMENDS) if not pp.blocks[b]["cleanup"]]
-    ctx.floor(rule, pp.path, len(calls), 6, "amend_* calls in postprocess_span_collection")
+    kinds = {pp.term(b)["callee"].rsplit("::", 1)[1] for b in calls}
+    ctx.check(kinds == {"amend_span", "amend_local_span"}, rule, pp.path, pp.span, "postprocess_span_collection converts span sets with amend_span and "
+              "local-span sets with amend_local_span", "%d calls" % len(calls), "amend_* callees found: %s" % sorted(kinds), extra="floor")
+
+    def elem(o, cut):
+        """Which element of the collection list (and which variant of it) a value was read from."""
+        nexts = tuple(v[2] for v in o.via if v[0] == "call" and v[1].endswith("::next"))
+        pre = tuple(o.path[:o.path.index(cut)]) if cut in o.path else None
+        return (o.kind, o.key, nexts, pre)
     for i, b in enumerate(calls):
         t = pp.term(b)
-        l0 = {sig(x)[:2] for x in data_origins(prov.of_operand(pp, t["args"][0]))}
-        l1, f1 = root_local(pp, t["args"][1])
-        l2, f2 = root_local(pp, t["args"][2])
-        ok = f1[-1:] == (".trace_id",) and f2[-1:] == (".parent_id",) and l1 == l2 and f1[:-1] == f2[:-1]
-        s0 = root_local(pp, t["args"][0])
+        a0 = data_origins(prov.of_operand(pp, t["args"][0]))
+        a1 = data_origins(prov.of_operand(pp, t["args"][1]))
+        a2 = data_origins(prov.of_operand(pp, t["args"][2]))
+        e0 = {elem(o, ".spans") for o in a0}
+        e1 = {elem(o, ".trace_id") for o in a1}
+        e2 = {elem(o, ".parent_id") for o in a2}
+        ok = bool(a0) and bool(a1) and bool(a2) and \
+            all(o.kind == "param" and o.key == 1 and ".spans" in o.path for o in a0) and \
+            all(o.kind == "param" and o.key == 1 and o.path[-1:] == (".trace_id",) for o in a1) and \
+            all(o.kind == "param" and o.key == 1 and o.path[-1:] == (".parent_id",) for o in a2) and e1 == e2 and e0 <= e1
         ctx.check(ok, rule, pp.path, pp.loc(b),
                   "amend_* receives the trace_id and parent_id of the collection whose span set it converts",
-                  "both from _%d%s" % (l1, "".join(f1[:-1])),
-                  "trace_id from _%d%s, parent_id from _%d%s" % (l1, "".join(f1), l2, "".join(f2)), extra="amend-args#%d" % i)
+                  "all three from the same element %s" % sorted(str(x[3]) for x in e1),
+                  "span set from %s, trace_id from %s, parent_id from %s" % (origin_strs(a0), origin_strs(a1), origin_strs(a2)), extra="amend-args#%d" % i)
 
 
 def rule_scope_parent(ctx, facts, rule):
@@ -649,10 +662,28 @@ def rule_local_converters_agree(ctx, facts, rule):
               "and then mounts attachments with the collector's mount_danglings", "", "call shape differs", extra="to_span_records")
     la = [b for b in pp.calls(lambda t: t["callee"] == AMENDS[1]) if not pp.blocks[b]["cleanup"]]
     mm = [b for b in pp.calls(lambda t: t["callee"].endswith("global_collector::mount_danglings")) if not pp.blocks[b]["cleanup"]]
-    ok2 = len(la) >= 4 and len(mm) == 1 and all(mm[0] in pp.reach([(b, pp.term(b)["target"])]) for b in la)
+    # every arm that holds a local-span set (either variant, owned or shared) reaches amend_local_span before the next
+    # element / the mount / the return, and the mount follows every conversion
+    nexts = [b for b in pp.calls_re(r"Iterator>?::next$", cleanup=False)]
+    stops = set(nexts) | set(mm) | set(pp.returns())
+    arms, bad = 0, []
+    for sb in range(len(pp.blocks)):
+        info = pp.switch_info(sb)
+        if not info or info.get("kind") != "discr" or not info["ty"].endswith("collector::SpanSet") or pp.blocks[sb]["cleanup"]:
+            continue
+        for v in ("LocalSpansInner", "SharedLocalSpans"):
+            es = pp.variant_edges(sb, [v])
+            if not es:
+                continue
+            arms += 1
+            r = pp.reach([(a, d) for a, d, _ in es], avoid_blocks=la)
+            if r & stops:
+                bad.append((pp.loc(sb), v))
+    ok2 = arms >= 2 and not bad and len(mm) >= 1 and all(any(m in pp.reach([(b, pp.term(b)["target"])]) for m in mm) for b in la)
     ctx.check(ok2, rule, pp.path, pp.span,
-              "every local-span arm of postprocess_span_collection (owned/shared x LocalSpansInner/SharedLocalSpans) converts with "
-              "amend_local_span and is followed by mount_danglings", "%d arms" % len(la), "arms: %d, mounts: %d" % (len(la), len(mm)), extra="arms")
+              "every local-span arm of postprocess_span_collection (LocalSpansInner / SharedLocalSpans, owned or shared) converts with "
+              "amend_local_span and is followed by mount_danglings", "%d arms, %d conversions" % (arms, len(la)),
+              "arms: %d, arms that skip the conversion: %s, mounts: %d" % (arms, bad, len(mm)), extra="arms")
 
 
 def rule_open_spans(ctx, facts, rule):
@@ -678,14 +709,12 @@ def rule_open_spans(ctx, facts, rule):
                         (suffix_is(o, ".end_instant") or "Instant::ZERO" in str(o.key))
                 zt = bool_cond_edges(fn, prov, zero_cmp, True)
                 zf = bool_cond_edges(fn, prov, zero_cmp, False)
-                okd = True
-                for (db, i, st) in fn.defs(el):
-                    src = data_origins(prov._through_call(fn, db, st, (), 0, set())) if i == "term" else \
-                        data_origins(prov._of_rvalue(fn, db, st["rv"], (), 0, set()))
-                    if any(suffix_is(x, ".end_time") for x in src):
-                        okd = okd and bool(zt) and fn.guarded([db], zt)
-                    if any(suffix_is(x, ".end_instant") for x in src):
-                        okd = okd and bool(zf) and fn.guarded([db], zf)
+                # where each of the two candidates is selected into the end operand (possibly a few copies / a helper's
+                # parameter / the unix-time conversion earlier than the subtraction)
+                p_time = selection_blocks(fn, prov, t["args"][0], lambda x: suffix_is(x, ".end_time"))
+                p_inst = selection_blocks(fn, prov, t["args"][0], lambda x: suffix_is(x, ".end_instant"))
+                okd = bool(p_time) and bool(p_inst) and bool(zt) and bool(zf) and \
+                    all(fn.guarded([db], zt) for db in p_time) and all(fn.guarded([db], zf) for db in p_inst)
                 ok = {".end_instant", ".end_time"} <= ends and okd
                 detail = "end operand origins %s; chosen on the ==ZERO edges: %s" % (sorted(ends), okd)
             ctx.check(ok, rule, fn.path, fn.loc(b),
